@@ -323,6 +323,12 @@ def run(ctx):
         a_, b_ = progs[tags["functional-names:first"]], progs[tags["functional-names:second"]]
         add("after-other-programs", tags["functional-names:second"], [goals_step(a_[0], a_[1]), goals_step(b_[0], b_[1])], 1, "functional-names:first, B")
         add("after-other-programs", tags["functional-names:first"], [goals_step(b_[0], b_[1]), goals_step(a_[0], a_[1])], 1, "functional-names:second, B")
+    if "functional-names:first" in tags:
+        # the same program with Sin/Cos moments first under --exact_func_moments, then with the default (rounded) setting
+        a_ = progs[tags["functional-names:first"]]
+        add("in-process:second-cli-invocation", tags["functional-names:first"],
+            [{"op": "argv", "flags": ["--exact_func_moments"]}, goals_step(a_[0], a_[1]), {"op": "argv", "flags": []}, goals_step(a_[0], a_[1])], 3,
+            "argv --exact_func_moments, B, argv (no flags), B", extra={"known": KNOWN_ARGV_LEAK})
     # settings prefixes (a subset of programs)
     sub = list(range(len(progs)))[:ctx.pick(4, 20)]
     for bi in sub:
